@@ -315,7 +315,7 @@ class Sim:
             for p in readers:
                 moved += p.read()
             # a tick that only logged its own marker (and nothing else) did nothing
-            progressed = moved or any(e.get('ev') not in ('tick',) for e in self.world.log[-(self.world.seq - before):])
+            progressed = moved or any(e.get('ev') not in ('tick', 'sel') for e in self.world.log[-(self.world.seq - before):])
             if progressed:
                 idle = 0
             else:
